@@ -531,6 +531,18 @@ def _o_time(op):
             return f"Time accessor #{i}: pendulum {a!r} != native {b!r}"
     if not (pa == na and na == pa and _safe(lambda: hash(pa)) == _safe(lambda: hash(na))):
         return "Time does not compare/hash equal to the native time"
+    if zr[0] not in "nf":
+        # ... and against the native time on the zoneinfo zone of the same name (a regional zone has no offset without a date:
+        # utcoffset()/dst()/tzname() are None there, isoformat() carries no offset, the value compares like a naive time)
+        import zoneinfo
+        nz = dt.time(*fa, tzinfo=zoneinfo.ZoneInfo(D.zname(zr)))
+        for i, f in enumerate((lambda x: x.utcoffset(), lambda x: x.dst(), lambda x: x.tzname(), lambda x: x.isoformat(),
+                               lambda x: x.strftime("%H:%M:%S.%f %z %Z"), lambda x: hash(x))):
+            a, b = _safe(lambda: f(pa)), _safe(lambda: f(nz))
+            if a != b:
+                return f"aware Time accessor #{i} on {D.zname(zr)}: pendulum {a!r} != native time on ZoneInfo {b!r}"
+        if _safe(lambda: pa == nz) != _safe(lambda: na == nz) or _safe(lambda: pa == dt.time(*fa)) != _safe(lambda: nz == dt.time(*fa)):
+            return f"aware Time on {D.zname(zr)} compares differently from the native time on ZoneInfo"
     ref = _cmp6(na, nb)
     for nm, x, y in (("p?p", pa, pb), ("p?n", pa, nb), ("n?p", na, pb)):
         if _cmp6(x, y) != ref:
